@@ -149,7 +149,10 @@ pub fn install(c: Option<Arc<Controller>>) {
 
 pub fn schedule_strategy() -> proptest::strategy::BoxedStrategy<Schedule> {
     use proptest::prelude::*;
-    let park = (any::<u8>(), 0u8..4, 1u8..40, 1u8..60).prop_map(|(point, nth, events, max_ms)| Park { point, nth, events, max_ms });
+    // read-path points (after_sector_load = 11, after_pread = 12 of 22) get extra weight
+    let point = prop_oneof![3 => any::<u8>(), 2 => Just((11 * 256 / POINTS.len() + 1) as u8), 1 => Just((12 * 256 / POINTS.len() + 1) as u8)];
+    let nth = prop_oneof![3 => 0u8..4, 2 => 4u8..60];
+    let park = (point, nth, 1u8..40, 1u8..60).prop_map(|(point, nth, events, max_ms)| Park { point, nth, events, max_ms });
     prop_oneof![
         2 => Just(Schedule::Free),
         5 => (any::<u64>(), prop_oneof![Just(20u8), Just(60), Just(140), Just(255)]).prop_map(|(seed, density)| Schedule::Jitter { seed, density }),
